@@ -52,7 +52,8 @@ def gen(rng, nops):
             if rng.random() < 0.3:
                 recs.append(recs[0])
             resp = 1 if rng.random() < 0.85 else 0
-            lines.append("DELIVER 4:3232235777|5353|0|%d|0||%s" % (resp, ";".join(recs)))
+            echo = ("%s,255,0" % recs[0].split(",")[0]) if (recs and rng.random() < 0.15) else ""      # a response may echo a question
+            lines.append("DELIVER 4:3232235777|5353|0|%d|0|%s|%s" % (resp, echo, ";".join(recs)))
         elif r < 0.85:
             now += rng.choice([0, 0, 1, 500, 1000, 1000, 2000, 60000, 130000])
             lines.append("%s %d" % (rng.choice(["ADV", "ADV", "ADV", "ADVB", "LATE"]), now))
